@@ -19,6 +19,8 @@ Lemma sweep_pairs_ok : sweep_pairs = true. Proof. vm_compute. reflexivity. Qed.
 
 Lemma sweep_consts_ok : sweep_consts = true. Proof. vm_compute. reflexivity. Qed.
 
+Lemma sweep_case_ok : sweep_case = true. Proof. vm_compute. reflexivity. Qed.
+
 Lemma sweep_score_ok : sweep_score = true. Proof. vm_compute. reflexivity. Qed.
 
 (* -- lifted lemmas -- *)
@@ -108,3 +110,9 @@ Proof.
   apply andb_true_iff in S as [_ S]. rewrite V in S. simpl in S. apply Z.eqb_eq in S. exact S.
 Qed.
 
+
+Theorem enc_case h c : c < 256 -> enc h (upper c) = enc h c /\ enc h (lower c) = enc h c.
+Proof.
+  intros H. pose proof sweep_case_ok as S. unfold sweep_case in S. sweep2 S h c H.
+  apply andb_true_iff in S as [S1 S2]. apply N.eqb_eq in S1, S2. auto.
+Qed.
